@@ -113,43 +113,75 @@ fn show_list(mut v: Vec<String>, sort: bool) -> String {
     }
 }
 
+// ---------------------------------------------------------------- error canonicalisation (BUILDING.md)
+// Rule 1 wherever the variant says it all (EmptyChain, BlockNotFound, InvalidHash, ConflictDetected; unknown
+// variants are named, never quoted). `ValidationFailed(String)` and `TransactionFailed(String)` each carry
+// several refusals that C16's oracles and known-finding classes DO tell apart (a commit rejected by
+// Chain::append = late failure; which check of verify_chain fired; too many operations vs not active), and the
+// variant has no structured discriminator: rule 3. The sub-reason is read by the keywords the repo's own tests
+// pin, no tighter:
+//   chain.rs  test_append_rejects_*            msg.contains("tx_root"), msg.contains("signed")
+//   block.rs  test_verify_chain_fails_on_*     msg.contains("height"), msg.contains("timestamp");
+//             verify_signature tests           to_string().contains("unknown proposer")
+//   transaction.rs state tests                 msg.contains("not active"), contains("cannot commit"), contains("committed")
+// ("state_root", "signature", "max_txs_per_block", "reserved" are pinned by no test; they are the field / config /
+// constant names the messages quote). A message is given a specific token only when the keywords of EXACTLY ONE
+// sub-reason occur in it; with none or several it degrades to the collapsed token of its variant (`err invalid`,
+// `err txfail`), never to another specific token. `reconcile` then compares that line with every sub-reason of
+// the same variant collapsed on both sides, and the consumers below treat the collapsed token by its variant.
+const VAL_COLLAPSED: &str = "err invalid";
+const TXF_COLLAPSED: &str = "err txfail";
+const VAL_FINE: [(&str, &[&str]); 6] = [
+    ("err height", &["height"]),
+    ("err tx_root", &["tx_root"]),
+    ("err state_root", &["state_root"]),
+    ("err timestamp", &["timestamp"]),
+    ("err unsigned", &["signed"]),
+    ("err bad_sig", &["signature", "unknown proposer"]),
+];
+const TXF_FINE: [(&str, &[&str]); 4] = [
+    ("err too_many", &["max_txs_per_block"]),
+    ("err not_active", &["not active", "cannot commit"]),
+    ("err committed", &["committed"]),
+    ("err reserved", &["reserved"]),
+];
+fn sub_reason(m: &str, table: &[(&'static str, &[&str])], collapsed: &'static str) -> &'static str {
+    let hits: Vec<&'static str> = table.iter().filter(|(_, kws)| kws.iter().any(|k| m.contains(k))).map(|(t, _)| *t).collect();
+    if hits.len() == 1 { hits[0] } else { collapsed }
+}
 fn verr(e: &ChainError) -> String {
     match e {
         ChainError::EmptyChain => "err empty_chain".into(),
         ChainError::BlockNotFound(h) => format!("err not_found {h}"),
         ChainError::InvalidHash { .. } => "err prev_hash".into(),
-        ChainError::ValidationFailed(m) => {
-            if m.starts_with("height") || m.starts_with("expected height") {
-                "err height".into()
-            } else if m.starts_with("tx_root") {
-                "err tx_root".into()
-            } else if m.starts_with("state_root") {
-                "err state_root".into()
-            } else if m.starts_with("timestamp") {
-                "err timestamp".into()
-            } else if m.starts_with("block must be signed") {
-                "err unsigned".into()
-            } else if m.contains("signature") || m.contains("unknown proposer") {
-                "err bad_sig".into()
-            } else {
-                format!("err other:{m}")
-            }
-        }
+        ChainError::ValidationFailed(m) => sub_reason(m, &VAL_FINE, VAL_COLLAPSED).into(),
         ChainError::ConflictDetected { .. } => "err conflict".into(),
-        ChainError::TransactionFailed(m) => {
-            if m.contains("max_txs_per_block") {
-                "err too_many".into()
-            } else if m.contains("cannot commit transaction") || m.contains("not active") {
-                "err not_active".into()
-            } else if m.contains("cannot rollback committed") {
-                "err committed".into()
-            } else if m.contains("reserved prefix") {
-                "err reserved".into()
-            } else {
-                format!("err txfail:{m}")
+        ChainError::TransactionFailed(m) => sub_reason(m, &TXF_FINE, TXF_COLLAPSED).into(),
+        other => format!("err other:{}", format!("{other:?}").chars().take_while(|c| c.is_alphanumeric()).collect::<String>()),
+    }
+}
+/// (implementation line, model line) as they are compared: when the implementation's line carries a collapsed
+/// token, the sub-reasons of that variant are collapsed on BOTH sides (so a reworded message agrees with any
+/// sub-reason of the same variant and with nothing else); otherwise both lines are returned unchanged.
+fn reconcile(imp: &str, model: &str) -> (String, String) {
+    let (mut a, mut b) = (imp.to_string(), model.to_string());
+    for (collapsed, table) in [(VAL_COLLAPSED, &VAL_FINE[..]), (TXF_COLLAPSED, &TXF_FINE[..])] {
+        if imp.contains(collapsed) {
+            for (fine, _) in table {
+                a = a.replace(fine, collapsed);
+                b = b.replace(fine, collapsed);
             }
         }
-        other => format!("err other:{other}"),
+    }
+    (a, b)
+}
+trait CompareCollapsed {
+    fn compare_c(&mut self, stream: &str, input: impl FnOnce() -> Value, imp: &str, model: &str) -> bool;
+}
+impl CompareCollapsed for Report {
+    fn compare_c(&mut self, stream: &str, input: impl FnOnce() -> Value, imp: &str, model: &str) -> bool {
+        let (a, b) = reconcile(imp, model);
+        self.compare(stream, input, &a, &b)
     }
 }
 fn vres(r: Result<(), ChainError>) -> String {
@@ -618,7 +650,8 @@ fn run_ws_case(m: &mut Model, ops: &[Op], max_txs: usize, auto_merge: bool, max_
         } else {
             out.hits.push(format!("ws.{tag}.{}", imp.split(' ').take(2).collect::<Vec<_>>().join("_").replace(|c: char| c.is_ascii_digit() || c == '=', "")));
         }
-        if imp != model {
+        let (imp_c, model_c) = reconcile(&imp, &model);
+        if imp_c != model_c {
             out.disagreements.push((format!("op {i} {}", show_op(op)), imp.clone(), model));
         }
         // property oracle after every op (implementation only)
@@ -895,6 +928,10 @@ fn run_late_case(m: &mut Model, ops: &[LOp], max_txs: usize, auto_merge: bool) -
                             "err too_many" => "early_too_many".to_string(),
                             "err conflict" => "early_conflict".to_string(),
                             "err not_active" => "early_not_active".to_string(),
+                            // collapsed tokens, by variant: ValidationFailed comes from Chain::append (late),
+                            // TransactionFailed from the checks before the block is built (early)
+                            VAL_COLLAPSED => "late_validation_unclassified".to_string(),
+                            TXF_COLLAPSED => "early_txfail_unclassified".to_string(),
                             o => format!("other_{}", o.replace(' ', "_")),
                         };
                         let k = tc.height().saturating_sub(begin_height[*w]);
@@ -936,7 +973,8 @@ fn run_late_case(m: &mut Model, ops: &[LOp], max_txs: usize, auto_merge: bool) -
             LOp::State => (state_line(&tc, &store), m.ask("state"), "state"),
         };
         out.hits.push(format!("late_fail.{tag}.{}", imp.split(' ').take(2).collect::<Vec<_>>().join("_").replace(|c: char| c.is_ascii_digit() || c == '=', "")));
-        if imp != model {
+        let (imp_c, model_c) = reconcile(&imp, &model);
+        if imp_c != model_c {
             out.disagreements.push((format!("op {i} {}", show_lop(op)), imp, model));
         }
     }
@@ -1436,7 +1474,9 @@ fn conc_oracle(c: &Conc, results: &[CommitOut]) -> (Vec<(&'static str, &'static 
         vios.push(("tensor_chain.commit/concurrent_commit_lost", "after concurrent commits the chain does not verify / a block record below the in-memory height is missing (a losing commit restored a snapshot taken before the winner's append)"));
         // Lean: `concurrent_commits_valid_unless_late_failure` — only the restore step of a commit that failed LATE
         // (Chain::append rejected its block) can break the chain
-        let late = |e: &String| e == "err height" || e == "err prev_hash" || e == "err bad_sig" || e == "err unsigned" || e == "err tx_root";
+        // (`err invalid` = a ValidationFailed whose sub-reason the wording no longer tells: TensorChain::commit gets
+        // that variant from Chain::append only, so it is a late failure as well)
+        let late = |e: &String| e == "err height" || e == "err prev_hash" || e == "err bad_sig" || e == "err unsigned" || e == "err tx_root" || e == VAL_COLLAPSED;
         if !results.iter().any(|x| x.as_ref().err().is_some_and(late)) {
             vios.push(("tensor_chain.commit/concurrent_chain_broken_without_late_failure", "after concurrent commits the chain does not verify although no commit was rejected by Chain::append (no late failure, hence no restore of a pre-apply snapshot)"));
         }
@@ -1742,7 +1782,7 @@ fn main() {
             }
             let line = if kind == "put" { "radd 1 put block:1 1" } else { "radd 1 del block:1" };
             let ops = json!(["begin", "put d1 1", "commit", "begin", format!("{kind} chain:block:1"), "commit", "verify"]);
-            rep.compare("directed.namespace", || json!({"ops": ops, "at": line}), &added.as_ref().map_or_else(|e| verr(e), |()| "ok".into()), &m.ask(line));
+            rep.compare_c("directed.namespace", || json!({"ops": ops, "at": line}), &added.as_ref().map_or_else(|e| verr(e), |()| "ok".into()), &m.ask(line));
             let res = tc.commit(&w);
             let ver = tc.verify();
             let after = chain_snap(&tc, &store);
@@ -1752,7 +1792,7 @@ fn main() {
             } else {
                 rep.hit("directed.namespace.refused");
                 // the refused operation left nothing behind: the commit is an empty commit, chain and store untouched
-                rep.compare("directed.namespace", || json!({"ops": ops, "at": "commit 1"}), &res.as_ref().map_or_else(|e| verr(e), |_| "empty".to_string()), &m.ask("commit 1 2"));
+                rep.compare_c("directed.namespace", || json!({"ops": ops, "at": "commit 1"}), &res.as_ref().map_or_else(|e| verr(e), |_| "empty".to_string()), &m.ask("commit 1 2"));
                 if after != before || ver.is_err() {
                     violation(&mut rep, "tensor_chain.workspace/refused_operation_changed_state", &format!("a refused add_operation + commit of the empty workspace changed chain or store: {}; verify() = {}", snap_diff(&before, &after).join("; "), vres(ver)), json!({"stream": "directed.namespace", "ops": ops}));
                 }
@@ -1784,7 +1824,7 @@ fn main() {
                 let mkey = key.strip_prefix("chain:").filter(|k| *k == "meta" || k.strip_prefix("block:").is_some_and(|h| h.parse::<u64>().is_ok()));
                 if let Some(mk) = mkey {
                     let line = show_op(&Op::RawAdd(1, kind, mk.to_string(), 5));
-                    rep.compare("directed.namespace", || json!({"script": script, "at": line}), &imp, &m.ask(&line));
+                    rep.compare_c("directed.namespace", || json!({"script": script, "at": line}), &imp, &m.ask(&line));
                 }
                 if r.is_ok() {
                     accepted.push(format!("{kind} {key}"));
@@ -1812,7 +1852,7 @@ fn main() {
             }
         }
         let r = w.add_operation(Tx::Put(4, 4).real());
-        rep.compare("directed.namespace", || json!({"script": script, "at": "put 1 4 4"}), &r.map_or_else(|e| verr(&e), |()| "ok".into()), &m.ask("put 1 4 4"));
+        rep.compare_c("directed.namespace", || json!({"script": script, "at": "put 1 4 4"}), &r.map_or_else(|e| verr(&e), |()| "ok".into()), &m.ask("put 1 4 4"));
         let res = tc.commit(&w);
         let ver = tc.verify();
         let after = chain_snap(&tc, &store);
@@ -1828,7 +1868,7 @@ fn main() {
                 res.as_ref().map(|_| ()).map_err(|e| e.to_string()), vres(ver)), json!({"stream": "directed.namespace", "script": script}));
         } else {
             // only compared on the healthy path (the model has no operation on a record of the chain to commit)
-            rep.compare("directed.namespace", || json!({"script": script, "at": "state"}), &state_line(&tc, &store), &{
+            rep.compare_c("directed.namespace", || json!({"script": script, "at": "state"}), &state_line(&tc, &store), &{
                 m.ask("commit 1 2");
                 m.ask("state")
             });
@@ -1972,7 +2012,7 @@ fn main() {
             let ver = vres(tc.verify());
             steps.push(format!("restart => initialize() = {}, {} meta={}, tip_hash {}..", init.as_ref().map_or_else(|e| verr(e), |()| "ok".into()), state_line(&tc, &store), meta_height(&store), hex(&tc.tip_hash()[..6])));
             if agree {
-                agree &= rep.compare("directed.append_crash", || desc(&steps), &format!("{} meta={}", state_line(&tc, &store), meta_height(&store)), &format!("{} meta={}", m.ask("reopen 50"), m.ask("meta")));
+                agree &= rep.compare_c("directed.append_crash", || desc(&steps), &format!("{} meta={}", state_line(&tc, &store), meta_height(&store)), &format!("{} meta={}", m.ask("reopen 50"), m.ask("meta")));
             }
             let mut tip_bad = false;
             if let Some(w) = tip_mismatch(tc.height(), tc.tip_hash(), &store) {
@@ -1994,15 +2034,15 @@ fn main() {
                     m.ask(&format!("put {ws} {k} {v}"));
                     let a = m.ask(&format!("commit {ws} {}", 60 + step));
                     ws += 1;
-                    agree = rep.compare("directed.append_crash", || desc(&steps), &imp, a.split(" txs=").next().unwrap_or(""))
-                        && rep.compare("directed.append_crash", || desc(&steps), &state_line(&tc, &store), &m.ask("state"));
+                    agree = rep.compare_c("directed.append_crash", || desc(&steps), &imp, a.split(" txs=").next().unwrap_or(""))
+                        && rep.compare_c("directed.append_crash", || desc(&steps), &state_line(&tc, &store), &m.ask("state"));
                 }
                 if step == 1 || second_restart {
                     let (t2, init) = open_tc(&store);
                     tc = t2;
                     steps.push(format!("restart => initialize() = {}, {}, tip_hash {}..", init.as_ref().map_or_else(|e| verr(e), |()| "ok".into()), state_line(&tc, &store), hex(&tc.tip_hash()[..6])));
                     if agree {
-                        agree &= rep.compare("directed.append_crash", || desc(&steps), &state_line(&tc, &store), &m.ask(&format!("reopen {}", 70 + step)));
+                        agree &= rep.compare_c("directed.append_crash", || desc(&steps), &state_line(&tc, &store), &m.ask(&format!("reopen {}", 70 + step)));
                     }
                     if !tip_bad {
                         if let Some(w) = tip_mismatch(tc.height(), tc.tip_hash(), &store) {
@@ -2085,7 +2125,7 @@ fn main() {
                         m.ask("begin");
                         m.ask(&format!("put {} {n} {n}", n - 1));
                         let a = m.ask(&format!("ncrash {} {n} {k}", n - 1));
-                        rep.compare("directed.append_crash", || json!({"history": history, "at": format!("ncrash {} {n} {k}", n - 1)}), "ok", &a);
+                        rep.compare_c("directed.append_crash", || json!({"history": history, "at": format!("ncrash {} {n} {k}", n - 1)}), "ok", &a);
                         Some(n)
                     } else {
                         None
@@ -2325,7 +2365,7 @@ fn main() {
             };
             let model = m.ask(&line);
             rep.hit(&format!("append.{imp}"));
-            rep.compare("chain.append", || json!({"registry": with_reg, "lines": all_lines, "line": line}), &imp, &model);
+            rep.compare_c("chain.append", || json!({"registry": with_reg, "lines": all_lines, "line": line}), &imp, &model);
             all_lines.push(line);
             if hsel != "ok" || prev != "ok" || rootsel != "ok" || sig != "ok" {
                 clean = false;
@@ -2335,7 +2375,7 @@ fn main() {
         let ver = vres(rc.chain.verify_chain());
         let mver = m.ask("cverify");
         rep.hit(&format!("verify.{}", ver.split(' ').take(2).collect::<Vec<_>>().join(" ")));
-        rep.compare("chain.verify_after_append", || json!({"registry": with_reg, "lines": all_lines}), &ver, &mver);
+        rep.compare_c("chain.verify_after_append", || json!({"registry": with_reg, "lines": all_lines}), &ver, &mver);
         // property: a chain built through `append` verifies
         if ver != "ok" {
             let kind = ver.trim_start_matches("err ").split(' ').next().unwrap_or("?").to_string();
@@ -2365,15 +2405,15 @@ fn main() {
         let b = mk_block(&rc, "ok", "ok", "ok", "ok", 1000, 1, &[Tx::Put(1, 2)]);
         let line = "cappend ok ok ok ok 1000 1 p1:2";
         let imp = rc.chain.append(b).map_or_else(|e| verr(&e), |_| "ok".into());
-        rep.compare("tamper.genesis_tx.build", || json!({"line": line}), &imp, &m.ask(line));
+        rep.compare_c("tamper.genesis_tx.build", || json!({"line": line}), &imp, &m.ask(line));
         let orig = read_block(&rc.store, 0).unwrap();
         let forged = mutate_block(&rc, &orig, "transactions", "push_new").unwrap();
         write_block(&rc.store, 0, &forged);
         let imp = vres(rc.chain.verify_chain());
         let a = m.ask("tamper 0 transactions push_new");
         let model = if a == "ok" { m.ask("cverify") } else { format!("model:{a}") };
-        rep.compare("tamper.genesis_tx.verify", || json!({"build": [line], "mutation": "block 0 transactions push_new"}), &imp, &model);
-        rep.compare("tamper.genesis_tx.old_model", || json!({"build": [line], "mutation": "block 0 transactions push_new", "model": "verifyChainOld"}), "ok", &m.ask("cverify_old"));
+        rep.compare_c("tamper.genesis_tx.verify", || json!({"build": [line], "mutation": "block 0 transactions push_new"}), &imp, &model);
+        rep.compare_c("tamper.genesis_tx.old_model", || json!({"build": [line], "mutation": "block 0 transactions push_new", "model": "verifyChainOld"}), "ok", &m.ask("cverify_old"));
         rep.hit(&format!("tamper.genesis_transactions.{}", if imp == "ok" { "undetected" } else { "detected" }));
         if imp == "ok" {
             violation(&mut rep, "tensor_chain.verify/genesis_transactions_tamper_undetected", "forged transactions in the stored genesis block and Chain::verify_chain still returns Ok (regression of repo commit 8e53c5a4)", json!({"stream": "tamper", "registry": true, "chain_blocks_after_genesis": 1, "build": [line], "mutation": "block 0 transactions push_new"}));
@@ -2403,11 +2443,11 @@ fn main() {
                 }
                 let line = format!("cappend ok ok ok ok {ts_off} {prop} {}", show_txs(&txs));
                 let imp = rc.chain.append(b).map_or_else(|e| verr(&e), |_| "ok".into());
-                rep.compare("tamper.build", || json!({"line": line}), &imp, &m.ask(&line));
+                rep.compare_c("tamper.build", || json!({"line": line}), &imp, &m.ask(&line));
                 lines.push(line);
             }
             let v0 = vres(rc.chain.verify_chain());
-            rep.compare("tamper.clean_verify", || json!({"registry": with_reg, "lines": lines}), &v0, &m.ask("cverify"));
+            rep.compare_c("tamper.clean_verify", || json!({"registry": with_reg, "lines": lines}), &v0, &m.ask("cverify"));
             if v0 != "ok" {
                 violation(&mut rep, "tensor_chain.verify/clean_chain_rejected", "a chain of valid signed blocks does not verify", json!({"registry": with_reg, "lines": lines, "verify": v0}));
                 continue;
@@ -2416,7 +2456,7 @@ fn main() {
             let mut check = |rep: &mut Report, m: &mut Model, desc: String, mline: String, field: &str, idx: u64, apply: &dyn Fn() -> bool, undo: &dyn Fn()| {
                 if !apply() {
                     let a = m.ask(&mline);
-                    rep.compare("tamper.applicable", || json!({"mutation": desc}), "skip", &a);
+                    rep.compare_c("tamper.applicable", || json!({"mutation": desc}), "skip", &a);
                     m.ask("crestore");
                     return;
                 }
@@ -2425,7 +2465,7 @@ fn main() {
                 let model = if a == "ok" { m.ask("cverify") } else { format!("model:{a}") };
                 rep.hit(&format!("verify.{}", imp.split(' ').take(2).collect::<Vec<_>>().join(" ")));
                 rep.hit(&format!("tamper.{field}.{}", if imp == "ok" { "undetected" } else { "detected" }));
-                rep.compare("tamper.verify", || json!({"registry": with_reg, "blocks": n, "lines": lines, "mutation": desc}), &imp, &model);
+                rep.compare_c("tamper.verify", || json!({"registry": with_reg, "blocks": n, "lines": lines, "mutation": desc}), &imp, &model);
                 rep.case("tamper", Some(&format!("{ci} {with_reg} {desc}")));
                 if imp == "ok" {
                     let class = if *n == 0 {
@@ -2561,7 +2601,7 @@ fn main() {
             let b = mk_block(&rc, "ok", "ok", "ok", "ok", ts_off, prop, &txs);
             let line = format!("cappend ok ok ok ok {ts_off} {prop} {}", show_txs(&txs));
             let imp = rc.chain.append(b).map_or_else(|e| verr(&e), |_| "ok".into());
-            agree &= rep.compare("reopen.build", || json!({"line": line}), &imp, &m.ask(&line));
+            agree &= rep.compare_c("reopen.build", || json!({"line": line}), &imp, &m.ask(&line));
             lines.push(line);
         }
         let set_meta = |store: &TensorStore, h: u64| {
@@ -2634,7 +2674,7 @@ fn main() {
                 let k = if !pt.dump.contains_key(&format!("chain:block:{}", n + 1)) { 0 } else if meta_of_dump(&pt.dump) == Some(n + 1) { 2 } else { 1 };
                 rep.hit(&format!("reopen.append_crash.k{k}"));
                 let line = format!("ccrash {k} ok ok ok ok 2000 1 {}", show_txs(&txs));
-                agree &= rep.compare("reopen.crash", || json!({"build": lines, "line": line}), "ok", &m.ask(&line));
+                agree &= rep.compare_c("reopen.crash", || json!({"build": lines, "line": line}), "ok", &m.ask(&line));
                 crash_image = Some(pt.image.clone());
                 crash_state = true;
                 format!("append of block {} [{}] stops before its store call `{}` (point {j} of {}; written so far: {})", n + 1, show_txs(&txs), pt.before, points.len(), if written.is_empty() { "nothing".to_string() } else { written.join(", ") })
@@ -2648,7 +2688,7 @@ fn main() {
         let mk_desc = |steps: &Vec<String>| json!({"stream": "reopen", "registry": with_reg, "build": lines, "damage": dmg_line, "then": steps});
         let running_ver = vres(rc.chain.verify_chain());
         if crash_image.is_none() {
-            agree = agree && rep.compare("reopen.verify_running_object", || mk_desc(&steps), &running_ver, &m.ask("cverify"));
+            agree = agree && rep.compare_c("reopen.verify_running_object", || mk_desc(&steps), &running_ver, &m.ask("cverify"));
         }
         // ---- first restart
         let opened = match &crash_image {
@@ -2659,7 +2699,7 @@ fn main() {
         steps.push(format!("restart => {imp}, tip_hash {}..", hex(&rc.chain.tip_hash()[..6])));
         if agree {
             let model = format!("{} meta={}", m.ask("copen 5000"), m.ask("cmeta"));
-            agree &= rep.compare("reopen.initialize", || mk_desc(&steps), &imp, &model);
+            agree &= rep.compare_c("reopen.initialize", || mk_desc(&steps), &imp, &model);
         }
         let ver = vres(rc.chain.verify_chain());
         rep.hit(&format!("reopen.{}.verify_{}", if healthy { "none" } else { damage }, ver.split(' ').take(2).collect::<Vec<_>>().join("_")));
@@ -2694,15 +2734,15 @@ fn main() {
             all_accepted &= imp == "ok";
             steps.push(format!("append block {} [{}] on height()/tip_hash() => {imp}; {}", rc.chain.height(), show_txs(&txs), rc.state()));
             if agree {
-                agree = rep.compare("reopen.append_after", || mk_desc(&steps), &imp, &m.ask(&line))
-                    && rep.compare("reopen.state_after_append", || mk_desc(&steps), &rc.state(), &format!("{} meta={}", m.ask("cstate"), m.ask("cmeta")));
+                agree = rep.compare_c("reopen.append_after", || mk_desc(&steps), &imp, &m.ask(&line))
+                    && rep.compare_c("reopen.state_after_append", || mk_desc(&steps), &rc.state(), &format!("{} meta={}", m.ask("cstate"), m.ask("cmeta")));
             }
             if step == 1 || early_second_restart {
                 let opened = rc.reopen();
                 let imp = opened.as_ref().map_or_else(|e| verr(e), |()| rc.state());
                 steps.push(format!("restart => {imp}, tip_hash {}..", hex(&rc.chain.tip_hash()[..6])));
                 if agree {
-                    agree &= rep.compare("reopen.second_initialize", || mk_desc(&steps), &imp, &format!("{} meta={}", m.ask("copen 6000"), m.ask("cmeta")));
+                    agree &= rep.compare_c("reopen.second_initialize", || mk_desc(&steps), &imp, &format!("{} meta={}", m.ask("copen 6000"), m.ask("cmeta")));
                 }
                 if !tip_bad {
                     if let Some(what) = tip_mismatch(rc.chain.height(), rc.chain.tip_hash(), &rc.store) {
@@ -2739,7 +2779,7 @@ fn main() {
         b4.transactions.push(c.clone());
         let same = b3.verify_tx_root() && b4.verify_tx_root();
         let model = m.ask("txroot_eq p1:1,p2:2,p3:3 p1:1,p2:2,p3:3,p3:3");
-        rep.compare("merkle.duplicate_tail", || json!({"a": "p1:1,p2:2,p3:3", "b": "p1:1,p2:2,p3:3,p3:3"}), if same { "equal" } else { "different" }, &model);
+        rep.compare_c("merkle.duplicate_tail", || json!({"a": "p1:1,p2:2,p3:3", "b": "p1:1,p2:2,p3:3,p3:3"}), if same { "equal" } else { "different" }, &model);
         rep.case("merkle", Some("dup-tail"));
         if same {
             violation(&mut rep, "tensor_chain.block.merkle/duplicate_tail_same_root", "Block::verify_tx_root accepts [a,b,c] and [a,b,c,c] under the same tx_root", json!({"stream": "merkle", "txs_a": "p1:1,p2:2,p3:3", "txs_b": "p1:1,p2:2,p3:3,p3:3", "tx_root": hex(&b3.header.tx_root)}));
@@ -2779,7 +2819,7 @@ fn main() {
         let bb = Block::new(BlockHeader::default(), b.iter().map(Tx::real).collect());
         let imp = if ba.compute_tx_root() == bb.compute_tx_root() { "equal" } else { "different" };
         rep.hit(&format!("merkle.mut{kind}.{imp}"));
-        rep.compare("merkle.eq", || json!({"a": show_txs(&a), "b": show_txs(&b)}), imp, &m.ask(&format!("txroot_eq {} {}", show_txs(&a), show_txs(&b))));
+        rep.compare_c("merkle.eq", || json!({"a": show_txs(&a), "b": show_txs(&b)}), imp, &m.ask(&format!("txroot_eq {} {}", show_txs(&a), show_txs(&b))));
         let mkey = format!("{} {}", show_txs(&a), show_txs(&b));
         rep.case("merkle", if a.len() >= 2 { Some(&mkey) } else { None });
     }
@@ -2857,7 +2897,7 @@ fn main() {
             // model: same blocks on two replicas with equal stores give equal roots (separate config, equal genesis)
             if case == 0 {
                 m.ask(&format!("rinit {} 5 5", u8::from(shared)));
-                rep.compare("replay.model_roots", || json!({"shared": shared}), "roots equal", &m.ask("rroots"));
+                rep.compare_c("replay.model_roots", || json!({"shared": shared}), "roots equal", &m.ask("rroots"));
             }
         }
     }
@@ -2969,8 +3009,8 @@ fn main() {
                     let res = x.sm.apply_block(&b);
                     let imp = res.as_ref().map_or_else(|e| verr(e), |()| "ok".into());
                     let desc = json!({"stream": "replay.verdicts", "registry": with_reg, "replicas": nrep, "script": script, "replica": i, "round": round});
-                    rep.compare("replay.verdict", || desc.clone(), &imp, &m.ask(&format!("rapply {i}")));
-                    rep.compare("replay.state", || desc.clone(), &rstate(x), &m.ask(&format!("rstate {i}")));
+                    rep.compare_c("replay.verdict", || desc.clone(), &imp, &m.ask(&format!("rapply {i}")));
+                    rep.compare_c("replay.state", || desc.clone(), &rstate(x), &m.ask(&format!("rstate {i}")));
                     rep.hit(&format!("replay.verdict.{}", imp.replace(' ', "_")));
                     if res.is_ok() {
                         accepted += 1;
@@ -3002,7 +3042,7 @@ fn main() {
                 }
             }
         }
-        rep.compare("replay.roots", || json!({"script": script}), if reps.iter().all(|x| compute_state_root(&x.state).unwrap() == compute_state_root(&reps[0].state).unwrap()) { "roots equal" } else { "roots differ" }, &m.ask("rrootsall"));
+        rep.compare_c("replay.roots", || json!({"script": script}), if reps.iter().all(|x| compute_state_root(&x.state).unwrap() == compute_state_root(&reps[0].state).unwrap()) { "roots equal" } else { "roots differ" }, &m.ask("rrootsall"));
         let vkey = format!("{case} {}", script.join(";"));
         rep.case("replay.verdicts", if accepted > 0 && rejected > 0 { Some(&vkey) } else { None });
         if case < 1 {
@@ -3163,10 +3203,10 @@ fn main() {
         }
         let want = m.ask("ctrace 0");
         let (results, trace) = run_unit_script(&c, &[]);
-        rep.compare("sched.solo_yield_sequence", || json!({"ops": show_txs(&ops), "trace": trace.iter().map(|s| format!("{} {}", s.site, s.key)).collect::<Vec<_>>()}), &thread_trace(&trace, 0), &want);
+        rep.compare_c("sched.solo_yield_sequence", || json!({"ops": show_txs(&ops), "trace": trace.iter().map(|s| format!("{} {}", s.site, s.key)).collect::<Vec<_>>()}), &thread_trace(&trace, 0), &want);
         let mres = m.ask("commit 0 5");
-        rep.compare("sched.solo_result", || json!({"ops": show_txs(&ops)}), if results[0].is_ok() { "ok" } else { "err" }, mres.split(' ').next().unwrap_or(""));
-        rep.compare("sched.solo_state", || json!({"ops": show_txs(&ops)}), &state_line(&c.tc, &c.store), &m.ask("state"));
+        rep.compare_c("sched.solo_result", || json!({"ops": show_txs(&ops)}), if results[0].is_ok() { "ok" } else { "err" }, mres.split(' ').next().unwrap_or(""));
+        rep.compare_c("sched.solo_state", || json!({"ops": show_txs(&ops)}), &state_line(&c.tc, &c.store), &m.ask("state"));
         rep.case("sched.solo", Some("solo"));
         rep.sample(json!({"stream": "sched.solo", "ops": show_txs(&ops), "yield_sequence": trace.iter().map(|s| format!("{} {}", s.site, s.key)).collect::<Vec<_>>(), "canonical": thread_trace(&trace, 0)}));
     }
@@ -3211,12 +3251,12 @@ fn main() {
         let imp = format!("{} ; {}", ires.join(" | "), state_line(&c.tc, &c.store));
         let model = format!("{} ; {}", mres.join(" | "), m.ask("state"));
         let desc = json!({"script": show_script(&script), "model_schedule": msched, "conflicting_keys": conflicting, "sequential_prefix_block": prefix});
-        rep.compare("sched.units", || desc.clone(), &imp, &model);
+        rep.compare_c("sched.units", || desc.clone(), &imp, &model);
         // per-thread yield sequence up to the state root against the model's step list (the append part depends on
         // the schedule: a thread that loses never writes)
         for t in 0..2 {
             let got = thread_trace(&trace, t);
-            rep.compare("sched.units_yield_sequence", || desc.clone(), got.split(" append=").next().unwrap_or(""), want_traces[t].split(" append=").next().unwrap_or(""));
+            rep.compare_c("sched.units_yield_sequence", || desc.clone(), got.split(" append=").next().unwrap_or(""), want_traces[t].split(" append=").next().unwrap_or(""));
         }
         let (vios, mut input, oks) = conc_oracle(&c, &results);
         input["scheduler"] = json!("deterministic (tensor_store::verif::yield_point), unit script");
